@@ -2,6 +2,7 @@ package arkx
 
 import (
 	"fmt"
+	"strings"
 
 	"github.com/mlange-42/ark/ecs"
 )
@@ -131,6 +132,59 @@ func (x *Exec) qmisBattery() {
 		x.qmis("map-set-missing", "typed", func() int64 { x.mapFor([]string{c}).Set(lacking, []int64{5}); return 0 })
 		x.qmis("unsafe-get-missing", "unsafe", func() int64 { return *x.payload(c, w.Unsafe().Get(lacking, x.ids[c])) })
 		x.qmis("getrelation-missing", "typed", func() int64 { return int64(x.mapFor([]string{c}).GetRelation(lacking, 0).ID()) })
+	}
+	// Set through MapN (N = 2..4) on an entity that has the first components but lacks the last one
+	for _, h := range x.ords {
+		if !w.Alive(h) {
+			continue
+		}
+		ids := w.Unsafe().IDs(h)
+		has := []string{}
+		hasM := map[string]bool{}
+		for i := 0; i < ids.Len(); i++ {
+			n := x.names[ids.Get(i)]
+			if !isRelName(n) {
+				has = append(has, n)
+			}
+			hasM[n] = true
+		}
+		missing := ""
+		for _, d := range comps {
+			if !hasM[d] && !isRelName(d) {
+				missing = d
+			}
+		}
+		if missing == "" || len(has) == 0 {
+			continue
+		}
+		for n := 1; n <= 3 && n <= len(has); n++ {
+			tuple := append(append([]string{}, has[:n]...), missing)
+			if _, ok := mapCtors[strings.Join(tuple, ",")]; !ok {
+				continue
+			}
+			before := make([]int64, n)
+			for i := 0; i < n; i++ {
+				before[i] = *x.mapFor([]string{has[i]}).Get(h)[0]
+			}
+			vals := make([]int64, n+1)
+			for i := range vals {
+				vals[i] = 424200 + int64(i)
+			}
+			hh := h
+			x.qmis(fmt.Sprintf("map%d-set-last-missing", n+1), "typed", func() int64 { x.mapFor(tuple).Set(hh, vals); return 0 })
+			x.qmis(fmt.Sprintf("map%d-set-last-missing-effect", n+1), "typed", func() int64 {
+				var changed int64
+				for i := 0; i < n; i++ {
+					p := x.mapFor([]string{has[i]}).Get(hh)[0]
+					if *p != before[i] {
+						changed++
+					}
+					*p = before[i]
+				}
+				return changed
+			})
+		}
+		break
 	}
 	if !partial.IsZero() {
 		// Set of two components, the second of which the entity lacks: what is left behind after recovering
